@@ -265,10 +265,10 @@ def r12_4(ctx):
     # the call in integrate
     pt, _ = ik.run_body(model, False, tail, {}, ordering={"prev_t@head": Fraction(1), "out_t": Fraction(2),
                                                           "curr_t@head": Fraction(4)})
-    ys2 = pt.env.get("ys")
-    if not (isinstance(ys2, list) and len(ys2) == 2):
+    w2 = ik.output_writes(pt.env.get("ys"))
+    if not (w2 is not None and len(w2) == 2):
         raise AnalysisError("R12.4: could not isolate the value appended per output time", where=astq.loc(fi))
-    appended = ys2[1]
+    appended = w2[1][1]
     ref2 = _interp_reference(ik.H("prev_t"), ik.H("prev_y", False), ik.H("curr_t"), ik.H("curr_y", False),
                              nf.sym("out_t", True))
     rep.check(isinstance(appended, Rat) and nf.equal(appended, ref2), "R12.4", astq.loc(fi, for_node),
